@@ -294,7 +294,12 @@ mod if_alloc {
     pub mod shared {
         use super::*;
         use crate::channel::shared::ChannelReceiveFuture;
+        #[cfg(not(futures_intrusive_verif))]
         use core::sync::atomic::{AtomicUsize, Ordering};
+        #[cfg(futures_intrusive_verif)]
+        use crate::verif::atomic::AtomicUsize;
+        #[cfg(futures_intrusive_verif)]
+        use core::sync::atomic::Ordering;
 
         struct GenericOneshotChannelSharedState<MutexType, T>
         where
